@@ -4,6 +4,11 @@
 // kinds:
 //
 //	streams  QueryRangeService.exportStreamsValue over a scripted chan []shared.LogEntry (hook)
+//	matrix   QueryRangeService.QueryRange, matrix branch    } the exported service methods; the rows come from a
+//	vector   QueryRangeService.QueryInstant, vector branch  } scripted shared.RequestProcessor handed out by a
+//	tail     first frame of QueryRangeService.Tail          } registered LogQL planner plugin (no hook)
+//	tags / tagvalues   TempoController.Tags / Values over a fake ITempoService
+//	labels / series    QueryLabelsService.GenericLabelReq / Series over scripted database/sql rows
 //
 // Every byte string travels hex-encoded. Besides the body, each case carries what the Coq model
 // cannot know: the order in which the Go runtime iterated each label map (read back from the
@@ -26,8 +31,10 @@ import (
 	"unicode/utf8"
 
 	controllerv1 "github.com/metrico/qryn/reader/controller"
+	"github.com/metrico/qryn/reader/logql/logql_parser"
 	"github.com/metrico/qryn/reader/logql/logql_transpiler_v2/shared"
 	"github.com/metrico/qryn/reader/model"
+	"github.com/metrico/qryn/reader/plugins"
 	"github.com/metrico/qryn/reader/service"
 	"verif/harness/hx"
 )
@@ -49,6 +56,7 @@ type Case struct {
 	Class   string    `json:"class"`
 	Batches [][]Entry `json:"batches"`
 	Items   []string  `json:"items"` // list kinds: hex strings (tag names, label values, stored label documents)
+	Order   []string  `json:"order"` // vector: fingerprints in the order of the result array (read back through the "id" label)
 	Out     string    `json:"out"`   // hex of the concatenated chunks
 	GoValid bool      `json:"valid"` // encoding/json.Valid(out)
 	GoRows  string    `json:"gorows"` // "ok" | "skip:<why>" | "diff:<what>"  (encoding/json parse compared with the rows)
@@ -169,12 +177,13 @@ func genVal(r *rand.Rand) float64 {
 		return -float64(r.Intn(1000)) / 8
 	case 3:
 		return 1e21 * (1 + r.Float64())
-	case 4:
-		return 5e-324
+	case 4, 6: // the longest texts FormatFloat can produce: rare, they dominate the size of a case
+		if r.Intn(8) == 0 {
+			return []float64{5e-324, math.MaxFloat64}[r.Intn(2)]
+		}
+		return float64(r.Intn(100)) / 4
 	case 5:
 		return 1e-7 * r.Float64()
-	case 6:
-		return math.MaxFloat64
 	case 7:
 		return float64(int64(1) << uint(r.Intn(63)))
 	case 8:
@@ -218,6 +227,14 @@ func genCase(r *rand.Rand, id int, kind string) Case {
 	var pool []ser
 	for i := 0; i < nser; i++ {
 		s := ser{genFp(r), genLabels(r)}
+		if kind == "vector" { // lets the harness recognise the series in the (map-ordered) result array
+			s.l["id"] = strconv.FormatUint(s.fp, 10)
+			for _, o := range pool {
+				if o.fp == s.fp {
+					s = o
+				}
+			}
+		}
 		if len(pool) > 0 && r.Intn(6) == 0 { // the same series again, in a separate run
 			s = pool[r.Intn(len(pool))]
 			cls += "+rerun"
@@ -312,6 +329,200 @@ func runStreams(c *Case) string {
 		}
 	}()
 	return sb.String()
+}
+
+// ---------------------------------------------------------------------------------- planner plugin kinds
+
+// scriptedProc is the shared.RequestProcessor the plugin hands to the service: every Process call
+// replays the batches of its case (Tail calls Process once per tick; only the first frame is read).
+type scriptedProc struct {
+	batches [][]shared.LogEntry
+	matrix  bool
+}
+
+func (p *scriptedProc) IsMatrix() bool { return p.matrix }
+func (p *scriptedProc) Process(ctx *shared.PlannerContext, in chan []shared.LogEntry) (chan []shared.LogEntry, error) {
+	out := make(chan []shared.LogEntry)
+	go func() {
+		defer close(out)
+		for _, b := range p.batches {
+			select {
+			case out <- b:
+			case <-time.After(5 * time.Second): // the consumer returned early (error entry)
+				return
+			}
+		}
+	}()
+	return out, nil
+}
+
+type planPlugin struct{}
+
+var curProc *scriptedProc
+
+func (planPlugin) Plan(script *logql_parser.LogQLScript) (shared.RequestProcessorChain, error) {
+	if curProc == nil {
+		return nil, fmt.Errorf("no scripted processor")
+	}
+	return shared.RequestProcessorChain{curProc}, nil
+}
+
+var pluginOnce bool
+var planReg *fakeRegistry
+
+func planSetup(c *Case, matrix bool) *service.QueryRangeService {
+	if !pluginOnce {
+		pluginOnce = true
+		plugins.RegisterLogQLPlannerPlugin("c15", planPlugin{})
+		planReg = newRegistry(nil)
+	}
+	p := &scriptedProc{matrix: matrix}
+	for _, b := range c.Batches {
+		lb := make([]shared.LogEntry, 0, len(b))
+		for _, e := range b {
+			lb = append(lb, toLogEntry(e))
+		}
+		p.batches = append(p.batches, lb)
+	}
+	curProc = p
+	return service.NewQueryRangeService(&model.ServiceData{Session: planReg})
+}
+
+func drain(ch chan model.QueryRangeOutput) string {
+	var sb strings.Builder
+	for o := range ch {
+		sb.WriteString(o.Str)
+	}
+	return sb.String()
+}
+
+func runMatrix(c *Case) string {
+	svc := planSetup(c, true)
+	ch, err := svc.QueryRange(context.Background(), `rate({a="b"}[1m])`, 0, 1e18, 1000, 100, true)
+	if err != nil {
+		panic(err)
+	}
+	return drain(ch)
+}
+
+func runVector(c *Case) string {
+	svc := planSetup(c, true)
+	ch, err := svc.QueryInstant(context.Background(), `rate({a="b"}[1m])`, 1e18, 1000, 100)
+	if err != nil {
+		panic(err)
+	}
+	return drain(ch)
+}
+
+// startTail launches the watcher (the plugin binds the case's processor synchronously inside Tail);
+// the returned function waits for the first frame and closes the watcher.
+func startTail(c *Case) func() string {
+	svc := planSetup(c, false)
+	w, err := svc.Tail(context.Background(), `{a="b"}`)
+	if err != nil {
+		panic(err)
+	}
+	return func() string {
+		var body string
+		select {
+		case o := <-w.GetRes():
+			body = o.Str
+		case <-time.After(10 * time.Second):
+			body = "<no frame within 10s>"
+		}
+		w.Close()
+		go func() {
+			for range w.GetRes() {
+			}
+		}()
+		return body
+	}
+}
+
+// vectorOrder: the fingerprints in result-array order, read through the "id" label every series of a vector case carries
+func vectorOrder(body string) []string {
+	var resp struct {
+		Data struct {
+			Result []struct {
+				Metric map[string]string `json:"metric"`
+			} `json:"result"`
+		} `json:"data"`
+	}
+	if json.Unmarshal([]byte(body), &resp) != nil {
+		return nil
+	}
+	var ord []string
+	for _, r := range resp.Data.Result {
+		ord = append(ord, r.Metric["id"])
+	}
+	return ord
+}
+
+// goVector: encoding/json parse compared with the latest sample per fingerprint (written independently of the Coq model)
+func goVector(c *Case, body string) string {
+	rows := liveRows(c, true)
+	for _, b := range c.Batches {
+		for _, e := range b {
+			if e.Err == 2 {
+				return "skip:error entry"
+			}
+		}
+	}
+	if !allUTF8(rows) {
+		return "skip:not utf8"
+	}
+	last := map[string]*Entry{}
+	for _, e := range rows {
+		if o, ok := last[e.Fp]; !ok || o.Ts < e.Ts {
+			last[e.Fp] = e
+		}
+	}
+	var resp struct {
+		Status string `json:"status"`
+		Data   struct {
+			ResultType string `json:"resultType"`
+			Result     []struct {
+				Metric map[string]string `json:"metric"`
+				Value  []interface{}     `json:"value"`
+			} `json:"result"`
+		} `json:"data"`
+	}
+	dec := json.NewDecoder(strings.NewReader(body))
+	dec.UseNumber()
+	if err := dec.Decode(&resp); err != nil {
+		return "diff:decode: " + err.Error()
+	}
+	if resp.Status != "success" || resp.Data.ResultType != "vector" {
+		return "diff:envelope"
+	}
+	if len(resp.Data.Result) != len(last) {
+		return fmt.Sprintf("diff:%d series, want %d", len(resp.Data.Result), len(last))
+	}
+	seen := map[string]bool{}
+	for _, r := range resp.Data.Result {
+		e, ok := last[r.Metric["id"]]
+		if !ok || seen[e.Fp] {
+			return "diff:unknown or repeated series " + r.Metric["id"]
+		}
+		seen[e.Fp] = true
+		if len(r.Metric) != len(e.Lbls) {
+			return "diff:labels of series " + e.Fp
+		}
+		for _, kv := range e.Lbls {
+			if v, ok := r.Metric[hx.UnHex(kv[0])]; !ok || v != hx.UnHex(kv[1]) {
+				return "diff:label of series " + e.Fp
+			}
+		}
+		if len(r.Value) != 2 {
+			return "diff:value of series " + e.Fp
+		}
+		n, ok1 := r.Value[0].(json.Number)
+		v, ok2 := r.Value[1].(string)
+		if !ok1 || !ok2 || n.String() != strconv.FormatInt(e.Ts/1000000000, 10) || v != e.Valt {
+			return "diff:value of series " + e.Fp
+		}
+	}
+	return "ok"
 }
 
 // ---------------------------------------------------------------------------------- list kinds
@@ -852,6 +1063,33 @@ func run(c *Case) {
 		c.GoRows = goList(c, body)
 		return
 	}
+	prepRows(c)
+	if c.Kind == "vector" { // QueryInstant prints the seconds with WriteInt64: the model takes that text as given
+		for bi := range c.Batches {
+			for ei := range c.Batches[bi] {
+				c.Batches[bi][ei].Tsf = strconv.FormatInt(c.Batches[bi][ei].Ts/1000000000, 10)
+			}
+		}
+	}
+	var body string
+	c.Panic = hx.Catch(func() {
+		switch c.Kind {
+		case "streams":
+			body = runStreams(c)
+		case "matrix":
+			body = runMatrix(c)
+		case "vector":
+			body = runVector(c)
+		case "tail":
+			body = startTail(c)()
+		default:
+			panic("unknown kind " + c.Kind)
+		}
+	})
+	finishRows(c, body)
+}
+
+func prepRows(c *Case) {
 	// inputs arrive with sorted labels; normalise in case a replay file carries observed orders
 	for bi := range c.Batches {
 		for ei := range c.Batches[bi] {
@@ -861,18 +1099,31 @@ func run(c *Case) {
 	}
 	c.NumLoss = ""
 	fillFloatTexts(c)
-	var body string
-	c.Panic = hx.Catch(func() {
-		switch c.Kind {
-		case "streams":
-			body = runStreams(c)
-		default:
-			panic("unknown kind " + c.Kind)
-		}
-	})
+}
+
+func finishRows(c *Case, body string) {
 	c.Out = hx.Hex(body)
 	c.GoValid = json.Valid([]byte(body))
 	matrix := c.Kind == "matrix"
+	if c.Kind == "vector" {
+		rows := liveRows(c, true)
+		last := map[string]*Entry{}
+		for _, e := range rows {
+			if o, ok := last[e.Fp]; !ok || o.Ts < e.Ts {
+				last[e.Fp] = e
+			}
+		}
+		c.Order = vectorOrder(body)
+		// label orders: the k-th "metric" object belongs to the series c.Order[k]
+		ords := headerOrders(body, "metric")
+		for k, fp := range c.Order {
+			if e, ok := last[fp]; ok && k < len(ords) {
+				applyOrders([]*Entry{e}, ords[k:k+1])
+			}
+		}
+		c.GoRows = goVector(c, body)
+		return
+	}
 	rows := liveRows(c, matrix)
 	key := "stream"
 	if matrix {
@@ -898,15 +1149,34 @@ func main() {
 		return
 	}
 	r := hx.Rand(f.Seed)
+	mix := []string{"streams", "matrix", "tags", "streams", "vector", "labels", "streams", "tail", "series", "matrix",
+		"streams", "tagvalues", "matrix", "vector", "labels", "streams", "tail", "series", "tags", "tagvalues"}
+	cases := make([]Case, f.N)
+	var waits []func()
 	for i := 0; i < f.N; i++ {
-		var c Case
-		switch k := i % 10; {
-		case k < 6:
-			c = genCase(r, i, "streams")
-		default:
-			c = genListCase(r, i, []string{"tags", "tagvalues", "labels", "series"}[k-6])
+		kind := mix[i%len(mix)]
+		if listKinds[kind] {
+			cases[i] = genListCase(r, i, kind)
+		} else {
+			cases[i] = genCase(r, i, kind)
 		}
-		run(&c)
-		out.Put(c)
+		c := &cases[i]
+		if kind != "tail" {
+			run(c)
+			continue
+		}
+		// Tail frames arrive on a one-second ticker: start all watchers, collect the frames afterwards
+		prepRows(c)
+		var wait func() string
+		c.Panic = hx.Catch(func() { wait = startTail(c) })
+		if wait != nil {
+			waits = append(waits, func() { finishRows(c, wait()) })
+		}
+	}
+	for _, w := range waits {
+		w()
+	}
+	for i := range cases {
+		out.Put(cases[i])
 	}
 }
